@@ -202,7 +202,7 @@ prop("C02", "other",
      "big-endian folds have the canonical step (acc << 8) | octet over take(h.length) (unknown shapes: inconclusive); "
      "IpAddress octet order; no overflow site in the decoders (shared with C01)."
      " Added in rounds 4-5: the zero-copy decoders (OID, RELATIVE-OID, OCTET STRING, Opaque, ObjectDescriptor, SEQUENCE, [n]) have no error exit; in each numeric decoder some read reaches h.length (cover observation of num); an overflow guard before `T << k` refuses only values that overflow; a RELATIVE-OID name is resolved against the preceding varbind. Added in rounds 6-7: bit fields of composed values do not overlap (bit occupancy on the MIR); the REAL decoder's first-octet table over all 256 octets; BOOLEAN / NULL / IpAddress are refused for their length only; the dispatcher itself refuses a supported (class, tag) only for lengths its decoder refuses too (cells over lengths 0..20); OCTET STRING / Opaque / ObjectDescriptor reach Python as the decoded slice, uncut.",
-     [("C02.dispatch", codec.dispatch), ("C02.displen", codec.dispatch_lengths), ("C02.pyraw", codec.py_values_raw), ("C02.pair", codec.pair), ("C02.extent", codec.extent), ("C02.width", codec.width), ("C02.hdr", codec.hdr_reject), ("C02.oidtext", codec.oid_print), ("C02.decrypt", only(crypto.priv_layout, "decrypt")), ("C02.textreject", codec.oid_to_text_rejections),
+     [("C02.dispatch", codec.dispatch), ("C02.displen", codec.dispatch_lengths), ("C02.hdrlen", codec.header_length_forms), ("C02.pyraw", codec.py_values_raw), ("C02.pair", codec.pair), ("C02.extent", codec.extent), ("C02.width", codec.width), ("C02.hdr", codec.hdr_reject), ("C02.oidtext", codec.oid_print), ("C02.decrypt", only(crypto.priv_layout, "decrypt")), ("C02.textreject", codec.oid_to_text_rejections),
       ("C02.fold", codec.fold), ("C02.ip", codec.ipaddr), ("C02.sites", codec.hdr_contract), ("C02.shiftguard", codec.shift_guards), ("C02.tail", codec.tail_cover), ("C02.total", codec.zero_copy_total), ("C02.relbase", c07.relative_base), ("C02.capacity", codec.capacity_exits), ("C02.lenonly", codec.length_only_rejections), ("C02.bits", bits.compose), ("C02.realforms", codec.real_forms)])
 
 prop("C08", "other",
@@ -220,7 +220,7 @@ prop("C15", "other",
      "push_tag_len (short / 0x81 / 0x82 with the octets in order and ensure_size covering them); the fixed encodings (ZERO_BER, "
      "NULL_BER, EMPTY_BER, version constants) are minimal TLVs; PDU tag tables of encoder and decoder agree with RFC 3416."
      " Added in rounds 4-5: decoded flag_* are bits 0/1/2 of the octet for all 256 values (mirror of the encoder's table); ensure_size refuses only what does not fit; push_tagged / push_tag_len write a header of at least two octets on success, also for empty contents; literal one-octet INTEGER range. Added in rounds 6-7: bit-field composition; encoder narrowing casts; capacity exits of value-consuming loops (unrolled iteration by iteration); a pooled buffer is reset before it returns to the pool; the request decoders refuse for structure only, never for a field's value.",
-     [("C15.nowrap", numrules.c15_nowrap), ("C15.len", codec.length_forms), ("C15.hdr", codec.hdr_reject), ("C15.pdu", codec.pdu_tags), ("C15.oid", codec.oid_text), ("C15.nested", crypto.nested_lengths), ("C15.mirror", crypto.layout_mirror), ("C15.dec", only(codec.width, "SnmpInt")), ("C15.handlen", crypto.hand_lengths), ("C15.flags", crypto.msg_flags_decode), ("C15.msgflags", crypto.msg_flags), ("C15.tail", codec.tail_cover), ("C15.shiftguard", codec.shift_guards), ("C15.ensure", only(numrules.c17_sites, "ensure_size", "push_tag_len", "push_tagged")), ("C15.intlit", crypto.literal_int_tlv), ("C15.capacity", codec.capacity_exits), ("C15.op", crypto.op_tables), ("C15.oidtext", codec.oid_print), ("C15.enccast", codec.encoder_casts), ("C15.bits", bits.compose), ("C15.pool", only(crypto.fresh_buffers, "reset-before-return")), ("C15.reqdec", codec.request_decoder_rejections)])
+     [("C15.nowrap", numrules.c15_nowrap), ("C15.len", codec.length_forms), ("C15.hdr", codec.hdr_reject), ("C15.pdu", codec.pdu_tags), ("C15.oid", codec.oid_text), ("C15.nested", crypto.nested_lengths), ("C15.mirror", crypto.layout_mirror), ("C15.dec", only(codec.width, "SnmpInt")), ("C15.handlen", crypto.hand_lengths), ("C15.flags", crypto.msg_flags_decode), ("C15.msgflags", crypto.msg_flags), ("C15.tail", codec.tail_cover), ("C15.shiftguard", codec.shift_guards), ("C15.ensure", only(numrules.c17_sites, "ensure_size", "push_tag_len", "push_tagged")), ("C15.intlit", crypto.literal_int_tlv), ("C15.capacity", codec.capacity_exits), ("C15.op", crypto.op_tables), ("C15.oidtext", codec.oid_print), ("C15.enccast", codec.encoder_casts), ("C15.bits", bits.compose), ("C15.pool", only(crypto.fresh_buffers, "reset-before-return")), ("C15.reqdec", codec.request_decoder_rejections), ("C15.total", codec.zero_copy_total)])
 
 from .rules import crypto  # noqa: E402
 
@@ -287,7 +287,7 @@ prop("C17", "proof",
      "no Result of a push is dropped; send only across push_pdu's Ok edge; OutOfBuffer -> SnmpEncodeError; length-form table."
      " Added in round 5: OutOfBuffer is raised by the buffer alone (no size estimate refuses a request). Added in rounds 6-7: capacity exits; a constructed element's length is measured (buf.len() - mark), never accumulated as contents + constant header size; the sync iterators let SnmpEncodeError through.",
      [("C17.sites", numrules.c17_sites), ("C17.owner", crypto.buffer_owner), ("C17.err", crypto.buffer_err), ("C17.send", crypto.fresh_buffers),
-      ("C17.len", codec.length_forms), ("C17.exc", only(c07.exc_table, "OutOfBuffer")), ("C17.itererr", py.iter_errors_propagate), ("C17.priv-fresh", crypto.priv_fresh), ("C17.nested", crypto.nested_lengths), ("C17.handlen", crypto.hand_lengths), ("C17.padconst", crypto.pad_constants), ("C17.oob", crypto.out_of_buffer_owner), ("C17.privlayout", only(crypto.priv_layout, "decrypt"))])
+      ("C17.len", codec.length_forms), ("C17.exc", only(c07.exc_table, "OutOfBuffer")), ("C17.itererr", py.iter_errors_propagate), ("C17.sendres", crypto.send_result_used), ("C17.priv-fresh", crypto.priv_fresh), ("C17.nested", crypto.nested_lengths), ("C17.handlen", crypto.hand_lengths), ("C17.padconst", crypto.pad_constants), ("C17.oob", crypto.out_of_buffer_owner), ("C17.privlayout", only(crypto.priv_layout, "decrypt"))])
 
 prop("C09", "other",
      "HMAC byte equality is NOT decided. Decided: in v3 push_pdu sign runs on every Ok path of an authenticated session with no "
@@ -299,7 +299,7 @@ prop("C09", "other",
      "engine id / keys consistency rules of C13."
      " Added in round 5: the Python key classes store the key bytes as given (only aligned, never rewritten). Added in round 7: the inner hash is fed the message parameter itself - a sub-range that is not provably the whole (`[..]`, `[..len]`) is a violation, an extent re-derived from the message's own header is inconclusive.",
      [("C09.order", crypto.sign_order), ("C09.const", crypto.hmac_consts), ("C09.shape", crypto.hmac_shape), ("C09.flag", v3.cred),
-      ("C09.keys", v3.keys), ("C09.adopt", v3.adopt), ("C09.accept", c04.accept), ("C09.msgflags", crypto.msg_flags), ("C09.dispatch", only(crypto.key_dispatch, "auth::", "AuthKey")), ("C09.chain", crypto.key_chain), ("C09.py", py.refresh_flow), ("C09.user", only(crypto.key_ffi, "user.")), ("C09.errprop", py.errors_propagate)])
+      ("C09.keys", v3.keys), ("C09.adopt", v3.adopt), ("C09.ktargs", only(crypto.key_type_rejections, "(key, engine id)")), ("C09.accept", c04.accept), ("C09.msgflags", crypto.msg_flags), ("C09.dispatch", only(crypto.key_dispatch, "auth::", "AuthKey")), ("C09.chain", crypto.key_chain), ("C09.py", py.refresh_flow), ("C09.user", only(crypto.key_ffi, "user.")), ("C09.errprop", py.errors_propagate)])
 
 prop("C11", "other",
      "Ciphertext correctness is NOT decided. Decided: both ciphers reset their private buffer before every use (history "
